@@ -152,6 +152,37 @@ class StdlibMixin:
         outs.append((st, Const(None)))
         return outs
 
+    def b_os_path_islink(self, eng, st, fn, args, kwargs):
+        """Whether a path is a symbolic link: an unknown fact about the file system (a function of the path)."""
+        eng.note("[E-FS]")
+        return [(st, Bv(F("fs_islink", Val, BoolS)(to_val(args[0]))))]
+
+    def b_shutil_copyfile(self, eng, st, fn, args, kwargs):
+        """shutil.copyfile(src, dst) opens dst for writing (TRUNCATING it) and then copies the bytes: not atomic on dst
+        [E-FS].  Outcomes: failure before anything happened; failure after the truncation; success."""
+        eng.note("[E-FS]")
+        a, b = to_val(args[0]), to_val(args[1])
+        y = st.copy()
+        y.event("io-fault", "copyfile")
+        y.trace.append((("io-fault", "copyfile"), True))
+        outs = [(y, Raise(ExcV(eng.exc_type("OSError"), {"errno": Const(13)}, label="OSError")))]
+        src = z3.simplify(st.sel("FS", a))
+        st.upd("Wr", b, st.sel("Wr", b) + 1)
+        self.fs_set(st, b, bytes_empty, "copyfile-truncate")
+        z = st.copy()
+        z.event("io-fault", "copyfile-write")
+        z.trace.append((("io-fault", "copyfile-write"), True))
+        outs.append((z, Raise(ExcV(eng.exc_type("OSError"), {"errno": Const(28)}, label="OSError(ENOSPC)"))))
+        self.fs_set(st, b, src, "copyfile-done")
+        outs.append((st, Const(None)))
+        return outs
+
+    def b_os_remove(self, eng, st, fn, args, kwargs):
+        eng.note("[E-FS]")
+        a = to_val(args[0])
+        self.fs_set(st, a, VAbsent, "remove")
+        return [(st, Const(None))]
+
     def b_os_stat(self, eng, st, fn, args, kwargs):
         eng.note("[E-FS]")
         p = to_val(args[0])
